@@ -238,6 +238,9 @@ class NonBondEngine():
         """
         for mol_idx, molecule in enumerate(molecules):
             for node in molecule.nodes:
+                # ignored molecules are not stored and keep their positions
+                if (mol_idx, node) not in self.nodes_to_gndx:
+                    continue
                 gndx = self.nodes_to_gndx[(mol_idx, node)]
                 molecule.nodes[node]["position"] = self.positions[gndx]
 
@@ -346,7 +349,7 @@ class NonBondEngine():
         return prob
 
     @classmethod
-    def from_topology(cls, molecules, topology, box):
+    def from_topology(cls, molecules, topology, box, ignore=()):
         """
         Create a class instance from a topology object,
         a list of molecules and a box.
@@ -356,9 +359,13 @@ class NonBondEngine():
         molecules: list
         topology: :class:`polyply.src.topology`
         box: np.nadarray
+        ignore: list[str]
+            names of molecules that take no part in the building;
+            they keep their molecule index but are not stored
         """
 
-        n_atoms = _n_particles(molecules)
+        n_atoms = _n_particles([molecule for molecule in molecules
+                                if molecule.mol_name not in ignore])
 
         # array of all positions
         positions = np.ones((n_atoms, 3)) * np.inf
@@ -370,6 +377,9 @@ class NonBondEngine():
         idx = 0
         mol_count = 0
         for molecule in molecules:
+            if molecule.mol_name in ignore:
+                mol_count += 1
+                continue
             for node in molecule.nodes:
                 if "position" in molecule.nodes[node]:
                     # check if position is inside grid
